@@ -1,6 +1,7 @@
 package vharness
 
 import (
+	"runtime"
 	"context"
 	"encoding/json"
 	"errors"
@@ -13,6 +14,9 @@ import (
 
 // Env is the state of one running episode.
 type Env struct {
+	barArrived map[int]int // barrier number -> clients arrived
+	barOpen    map[int]bool
+	barWaiting int
 	c    *Case
 	hist []Ev
 
@@ -107,6 +111,10 @@ func (e *Env) wf(widx int, j varmq.Job[Payload]) (int, error) {
 		st2 = sp.Status()
 	}
 	e.inflight--
+	if it != nil && it.Out == OutGoexit {
+		e.log(Ev{K: "goexit", C: -1, J: n, Q: -1, G: -1, W: widx, St: st2})
+		runtime.Goexit()
+	}
 	e.log(Ev{K: "exit", C: -1, J: n, Q: -1, G: -1, W: widx, St: st2})
 	out := OutVal
 	if it != nil {
@@ -367,6 +375,18 @@ func (e *Env) onQuiescent() bool {
 		return false
 	}
 	e.log(Ev{K: "q", C: -2, J: -1, Q: -1, G: -1, Sn: e.snapshot(false)})
+	if e.barWaiting > 0 {
+		// a barrier never adds a dependency: when nothing else can run, whoever waits there goes on
+		if e.barOpen == nil {
+			e.barOpen = map[int]bool{}
+		}
+		for k := range e.barArrived {
+			e.barOpen[k] = true
+		}
+		e.log(Ev{K: "env", C: -2, Op: "barrier-opened", J: -1, Q: -1, G: -1})
+		vrt.Wake(vrt.KeyOf(e) + 1000003)
+		return true
+	}
 	if len(e.parked) > 0 {
 		n := e.parked[0]
 		e.log(Ev{K: "env", C: -2, Op: "autorelease", J: n, Q: -1, G: -1})
